@@ -127,6 +127,19 @@ def evaluate(p):
     o.stat("lib_calls", k)
     # the combinations have 1-norm <= 4 n, so |fn(x) - T x| / (4 n scale) is a relative residual
     o.close("superposition", e / (4.0 * n * scale), TOL)
+    # a field stored in a real dtype is the same field (zero imaginary part): every real-dtype unit input and
+    # a dense real-dtype input must give what the complex-dtype operator predicts (linearity over complex
+    # coefficients of real basis fields: P(a + i b) = P(a) + i P(b))
+    with warnings.catch_warnings():
+        warnings.simplefilter("ignore")
+        Tr, c3 = linear.operator(fn, shape, dtype=float, out_shape=shape)
+    xr = ((numpy.arange(n) * 5) % 7 - 3.0)
+    worst_r = _maxabs(Tr - T)
+    for dt in (numpy.float64, numpy.float32, numpy.int64):
+        yr = numpy.asarray(fn(xr.reshape(shape).astype(dt)))
+        worst_r = max(worst_r, _maxabs(yr.reshape(-1) - T @ xr) / (3.0 * n) * (TOL / 1e-5 if dt == numpy.float32 else 1.0))   # float32 input: 1e-5
+    o.stat("lib_calls", c3 + 3)
+    o.close("real_dtype_input_is_same_field", worst_r / scale, TOL)
     G = T.conj().T @ T * (d_out / d1) ** 2
     o.close("power_conserved", _maxabs(G - numpy.eye(n)), TOL)
     # the same statement on one dense input, through the plain sum formula of the statement
